@@ -345,6 +345,23 @@ func enumerateQueries(cfg genConfig) []*Query {
 			}
 		}
 	}
+	// parser (or drop), label filter, then a parser that extracts the label the filter reads (both tiers)
+	{
+		heads := []Stage{jsonAtoms()[0], regexpAtoms()[0], dropAtoms()[1]}
+		filters := []*Tree{leafN("q", "==", "5"), leafS("q", "=", ""), leafS("q", "!=", "5"), leafS("p", "=", "x"), leafN("p", ">", "0")}
+		later := []Stage{{Kind: "json", JSON: []JSONParam{{"q", "i"}}}, jsonAtoms()[6], jsonAtoms()[3], regexpAtoms()[1]}
+		if cfg.thorough {
+			heads = append(append([]Stage{}, parsers...), dropAtoms()...)
+			filters = append(filters, extractedLeaves(false)...)
+		}
+		for _, h := range heads {
+			for _, f := range filters {
+				for _, l := range later {
+					add(all, h, Stage{Kind: "label", Tree: f}, l)
+				}
+			}
+		}
+	}
 	if !cfg.thorough {
 		// quick tier: the three-stage shape parser, label filter, drop (a drop after a filter on the same SELECT)
 		for _, ps := range []Stage{jsonAtoms()[0], regexpAtoms()[0]} {
